@@ -415,6 +415,12 @@ def corpus():
         for F in (["f"], ["d/f"], ["d"], None, ["x"]):
             out.append(mk(a, bb, F=F))
             out.append(mk(a, bb, F=F, incl=True))
+    # executable bit only / symlink target only / content only
+    a = [R, e(1, 0, "a", D), e(2, 1, "p", ex=False), e(3, 1, "l", SY, target="t1"), e(4, 0, "q", content=b"1")]
+    b = [R, e(1, 0, "a", D), e(2, 1, "p", ex=True), e(3, 1, "l", SY, target="t2"), e(4, 0, "q", content=b"2")]
+    for F in (None, ["a"], ["a/p"], ["q"], ["a/l", "q"]):
+        out.append(mk(a, b, F=F))
+    out.append(mk(a, b, F=None, incl=True))
     # the dirstate fast path reports id 5 twice
     a = [R, e(1, 0, "d", FI, b""), e(2, 0, "c", D), e(3, 2, "a", FI, b""), e(4, 2, "d", D), e(5, 0, "e", D)]
     b = [R, e(1, 0, "d", FI, b""), e(2, 0, "c", D), e(5, 2, "c", D), e(6, 2, "a", FI, b"2")]
@@ -423,7 +429,7 @@ def corpus():
 
 
 def cases(rng, tier):
-    npairs = 110 if tier == "quick" else 1500
+    npairs = 65 if tier == "quick" else 1500
     for pi in range(npairs):
         n = rng.choice([2, 3, 4, 5, 6, 7]) if pi % 4 else rng.choice([2, 3])
         k = rng.choice([1, 2, 3, 4, 5])
@@ -490,6 +496,8 @@ def _scratch():
         base = os.environ.get("VERIF_SCRATCH")
         _state["dir"] = tempfile.mkdtemp(prefix="c10-", dir=base if base and os.path.isdir(base) else None)
         _state["own"] = True
+        import atexit
+        atexit.register(shutil.rmtree, _state["dir"], True)
     return _state["dir"]
 
 
